@@ -60,7 +60,8 @@ def pairs(A):
         return [("7_2", 7, 2), ("n7_2", -7, 2), ("7_n2", 7, -2), ("n7_n2", -7, -2), ("6_3", 6, 3), ("n6_3", -6, 3),
                 ("6_n3", 6, -3), ("0_5", 0, 5), ("2_7", 2, 7), ("n2_7", -2, 7), ("MIN_1", "MIN", 1), ("MIN_n1", "MIN", -1),
                 ("MIN_2", "MIN", 2), ("MAX_n1", "MAX", -1), ("MAX_1", "MAX", 1), ("7_0", 7, 0), ("MIN_0", "MIN", 0),
-                ("MIN_MIN", "MIN", "MIN"), ("5_MIN", 5, "MIN"), ("n1_MIN", -1, "MIN"),
+                ("MIN_MIN", "MIN", "MIN"), ("5_MIN", 5, "MIN"), ("n1_MIN", -1, "MIN"), ("0_0", 0, 0), ("MIN_n2", "MIN", -2),
+                ("MIN_n3", "MIN", -3), ("MAX_MIN", "MAX", "MIN"), ("0_n5", 0, -5),
                 ("MAXm1_3", ("MAX", -1), 3), ("MAXm1_4", ("MAX", -1), 4), ("MINp1_n3", ("MIN", 1), -3), ("MAXm2_MAX", ("MAX", -2), "MAX")]
     return [("7_2", 7, 2), ("6_3", 6, 3), ("0_5", 0, 5), ("2_7", 2, 7), ("MAX_1", "MAX", 1), ("MAX_MAX", "MAX", "MAX"),
             ("MAX_2", "MAX", 2), ("7_0", 7, 0), ("0_0", 0, 0), ("MAXm1_3", ("MAX", -1), 3), ("MAXm1_4", ("MAX", -1), 4),
@@ -142,6 +143,8 @@ def obligations(ctx, tier):
     configs = ["Kd", "Kr"] if tier == "quick" else ["Kd", "Kr", "Kd0", "Kr0"]
     for cfg in configs:
         K = ctx.k(cfg)
+        from . import digits
+        out += digits.div_rows(K, PROP)
         W_debug[0] = K.debug
         for A in ADTS:
             T = T_(A)
